@@ -793,8 +793,25 @@ func propC10(c *Ctx) {
 	}, setBC, vmRunCall)
 	c.Check(rt, "module cache restored after the new bytecode is installed", pos, okMC, "VM.modulesCache = r.ModulesCache between SetBytecode and run", "the session's loaded modules are not handed to the VM after SetBytecode cleared its cache: every fragment re-runs the bodies of modules imported earlier")
 	// thread-save: stores to r.ModulesCache and r.Locals after run, before Clear
-	okSaveMC := storeBetween(func(st *ssa.Store) bool { _, ok := isFieldAddrOf(st.Addr, modPath, "Eval", fMC); return ok }, vmRunCall, clearCall)
-	okSaveL := storeBetween(func(st *ssa.Store) bool { _, ok := isFieldAddrOf(st.Addr, modPath, "Eval", fLocals); return ok }, vmRunCall, clearCall)
+	// (judged from the branch on which the runner reports that it started the VM, if it reports that)
+	startedFrom := afterStartedRun(l, vmRunCall)
+	saveBefore := func(field int) bool {
+		pred := func(ins ssa.Instruction) bool {
+			st, ok := ins.(*ssa.Store)
+			if !ok {
+				return false
+			}
+			_, ok = isFieldAddrOf(st.Addr, modPath, "Eval", field)
+			return ok
+		}
+		if pred(startedFrom) {
+			return true
+		}
+		_, ok := mustPassBefore(startedFrom, pred, func(x ssa.Instruction) bool { return x == clearCall })
+		return ok && instrDominates(vmRunCall, clearCall)
+	}
+	okSaveMC := saveBefore(fMC)
+	okSaveL := saveBefore(fLocals)
 	c.Check(rt, "locals and module cache saved before Clear", pos, okSaveMC && okSaveL, "r.ModulesCache and r.Locals assigned between run and Clear on the only path", "the session does not take the locals / loaded modules back from the VM before clearing it (on every path, including failing fragments)")
 	// params
 	fNP, fNL := fld("CompiledFunction", "NumParams"), fld("CompiledFunction", "NumLocals")
@@ -820,6 +837,8 @@ func propC10(c *Ctx) {
 	ruleCompileRollback(c, rcr, run, compileCall)
 	rsa := c.Rule("save-all-paths", "after the VM run every path of Eval.Run to a return stores r.Locals and r.ModulesCache (also for a failing fragment)", 2)
 	ruleEvalSaveAllPaths(c, rsa, run, vmRunCall)
+	rso := c.Rule("save-only-if-ran", "a run that the session refuses to start (context already done) does not read the locals back from the untouched VM: the session's variables survive a cancelled request", 1)
+	ruleEvalSaveOnlyIfRan(c, rso, run, vmRunCall)
 	rle := c.Rule("locals-elements", "no code of the package overwrites an element of Eval.Locals: the VM's slots (cells of captured variables included) come back verbatim", 1)
 	ruleEvalLocalsElements(c, rle)
 
